@@ -525,7 +525,7 @@ func rndContent(rnd *rand.Rand) string {
 		case 2:
 			line = "0.0.0.0 h" + fmt.Sprint(i) + ".example"
 		case 3:
-			line = "||n" + fmt.Sprint(i) + ".example^" + strings.Repeat("x", []int{0, 0, 4090, 4096, 9000}[rnd.Intn(5)])
+			line = "||n" + fmt.Sprint(i) + ".example^" + strings.Repeat("x", []int{0, 0, 4090, 4096, 9000, 0, 0, 4090, 4096, 9000, 65530, 70000}[rnd.Intn(12)])
 		case 4:
 			line = "e.org##.c" + fmt.Sprint(i)
 		case 5:
